@@ -64,6 +64,16 @@ def collect(h):
         raise h.Missing(f"{rel}: NewRuleAll no longer takes the operations of the first matching type")
     uni = re.search(r"for\s+_,\s*(\w+)\s*:=\s*range appdef\.FilterMatches\(flt, ws\.Types\(\)\)\s*\{[^}]*ACLOperationsForType\(\1\.Kind\(\)\)[^}]*Len\(\)\s*!=\s*ops\.Len\(\)[^}]*ContainsAll\(ops\.AsArray\(\)\.\.\.\)[^}]*panic\(", body, re.S) is not None
     items.append(("acl_all_requires_uniform_ops", "bool", "true" if uni else "false", rel + " NewRuleAll"))
+    # newFilter: does a rule keep its own copy of the caller's field slice (C13-F8)?
+    rel = "pkg/appdef/internal/acl/rule.go"
+    body = h.func_body(rel, r"^func newFilter\(", "newFilter")
+    if re.search(r"&filter\{\s*flt\s*,\s*fields\s*\}", body):
+        clones = False
+    elif re.search(r"&filter\{\s*flt\s*,\s*(slices\.Clone\(fields\)|append\(\[\]appdef\.FieldName(\{\}|\(nil\)),\s*fields\.\.\.\))\s*\}", body):
+        clones = True
+    else:
+        raise h.Missing(f"{rel}: newFilter has a shape the model does not cover")
+    items.append(("acl_rule_clones_fields", "bool", "true" if clones else "false", rel + " newFilter"))
     # system fields recognised by IsSysField (the harness numbers them 0..4 in this order)
     rel = "pkg/appdef/utils_field.go"
     fb = h.func_body(rel, r"^func IsSysField\(", "IsSysField")
